@@ -112,6 +112,14 @@ func (w *World) errValueConsumed(e, root ssa.Value, opts errOpts, seen map[ssa.V
 				}
 			}
 		case *ssa.Store:
+			// parked in a sticky error cell of a call-local sink object (errsticky.go)
+			if _, isCell := x.Addr.(*ssa.FieldAddr); isCell && x.Val == e {
+				if ok, f := w.stickyStoreConsumed(x, opts); ok {
+					return true, f
+				} else {
+					reasons = append(reasons, f)
+				}
+			}
 			// named result spilled because a deferred closure captures it:
 			// stored, then loaded by the return
 			if al, ok := x.Addr.(*ssa.Alloc); ok && x.Val == e {
@@ -203,6 +211,19 @@ func (w *World) nonNilErr(v, given ssa.Value, phiRes map[*ssa.Phi]ssa.Value, dep
 				return true
 			}
 			if qualifiedFnName(sc) == "errors.New" || qualifiedFnName(sc) == "fmt.Errorf" {
+				return true
+			}
+		} else if !x.Common().IsInvoke() {
+			// a function value (`p.keyFailed(err)`): every function the call graph
+			// resolves it to never returns a nil error
+			cs := w.calleesOf(x)
+			all := len(cs) > 0
+			for _, c := range cs {
+				if !w.neverNilErr(w.throughWrapper(c), depth+1) {
+					all = false
+				}
+			}
+			if all {
 				return true
 			}
 		}
